@@ -420,7 +420,10 @@ impl Sender {
         let mut credits = AssignedCredits::default();
 
         while !ports_response.is_empty() {
-            if credits.is_empty() {
+            // A port requires the credits for a whole u32. Fewer remaining credits are
+            // returned first, so that they count towards the credits requested anew.
+            if (credits.available() as usize) < size_of::<u32>() {
+                drop(std::mem::take(&mut credits));
                 let data_len = ports_response.len() * size_of::<u32>();
                 credits =
                     self.credits.request(data_len.min(u32::MAX as usize) as u32, size_of::<u32>() as u32).await?;
